@@ -149,6 +149,44 @@ CHECKS_K1 = {
                 "every operator object subscribed twice) - bounded.",
         "technique": "function/closure contracts (subscribe + one arbitrary tick + continuation) and wrapper-to-engine obligations, symbolic execution of the real code, SMT",
     },
+    "C16": {
+        "text": "K1-T: handler refinement in VIRTUAL TIME. Every step (a source notification or the firing of a timer) happens at one "
+                "instant `now`, not before the previous one; the scheduler is opaque: `scheduler.now` reads that instant, every "
+                "schedule_relative/absolute call of the real code is recorded with its due instant and compared with the timer the "
+                "spec sets in the same step (same number, same instants), a timer fires exactly at its due instant (scheduler "
+                "contract) from an ARBITRARY later state in which it is still pending. debounce_: an element arms a timer one due time "
+                "ahead and cancels the previous one (event order compared); the timer of generation k emits the pending element iff no "
+                "newer element arrived; completion flushes the pending element, an error drops it. throttle_first_: an element passes "
+                "iff at least the window duration has passed since the last element that passed (clock read once per element). "
+                "sample_observable: at every tick of the sampler (element or completion) the latest element not yet sampled is emitted "
+                "and, once the source completed, the next tick completes - for every interleaving of source and sampler events.",
+        "note": _K1_NOTE + " A-time: integer ticks, relative times are plain integers, a timer due in the past runs at the current "
+                "instant (VirtualTimeScheduler semantics), conversions are identities (C36's business); A-time-step: the clock does not "
+                "advance inside one handler. Timer-family invariant of debounce: a timer that is still pending is the one of the "
+                "newest element (older ones were cancelled when replaced - SerialDisposable, C26 - and a cancelled timer never fires - "
+                "scheduler contract C28/C30). RE-ENTRANCY: the coupling invariant is also proved at every element handed downstream, "
+                "so a subscriber that calls back into the operator from inside on_next is covered. Not under contract: "
+                "throttle_with_mapper; sample(period) = sample_observable over interval(period) (C35) is covered by the bounded "
+                "native cross-check (timedrun.py, TestScheduler) only.",
+        "technique": "K1 handler refinement in virtual time with timer families (K1-T), SMT; native TestScheduler replay",
+    },
+    "C17": {
+        "text": "K1-T (see C16) for the boundary operators. take_with_time_ / take_until_with_time_ (relative and absolute): a timer "
+                "is set at subscription for the boundary instant; elements pass unchanged until it fires, its firing completes the "
+                "sequence. skip_with_time_ / skip_until_with_time_: elements are dropped until the timer set at subscription fires, "
+                "then pass unchanged; terminals always pass. timeout_ (relative and absolute due time, with a fallback source): a "
+                "timer is armed at subscription and re-armed by every element (the new timer replaces and cancels the pending one, "
+                "event order compared); source notifications are mirrored while not switched; the timer of generation k fires the "
+                "switch iff no notification arrived since it was armed: the subscriber itself is handed to the fallback source and "
+                "the source's subscription is released; after the source terminated nothing switches.",
+        "note": _K1_NOTE + " A-time / A-time-step as in C16; absolute times are tagged integers (isinstance(x, datetime) is true exactly "
+                "for them). A source element AT the boundary instant is processed by whichever of the two events the scheduler runs "
+                "first - both orders are covered since every step starts from an arbitrary state. NOT proved (no contract yet), decided "
+                "by the bounded native run only and listed under drifted_to_bounded / bounded_standins: take_last_with_time, "
+                "skip_last_with_time (queues of time-stamped records drained by loops), timeout without a fallback (= fallback "
+                "throw(...), C37), timeout_with_mapper.",
+        "technique": "K1 handler refinement in virtual time with timer families (K1-T), SMT; bounded native stand-in for the operators without a contract",
+    },
     "C22": {
         "text": "Function contracts with loop invariants on the real ReplaySubject, the retained queue viewed as a SEQUENCE of (time, "
                 "value) records with non-decreasing times, buffer_size and window arbitrary (None = no limit). _trim(now): both loops "
